@@ -873,7 +873,8 @@ def join_seq(a: Seq, b: Seq) -> Seq:
 
 def bool_to_num(b: Bool) -> Num:
     rng = Interval.closed(0, 1) if b.tv is None else Interval.point(1.0 if b.tv else 0.0)
-    return Num(kinds=frozenset({"bool"}), rng=rng, deg=Fraction(0), prov=b.prov, sym=b.sym, const=b.tv)
+    # a decided truth value is the number 1 or 0 (its term is that constant, not the comparison it came from)
+    return Num(kinds=frozenset({"bool"}), rng=rng, deg=Fraction(0), prov=b.prov, sym=("const", int(b.tv)) if b.tv is not None else b.sym, const=b.tv)
 
 
 def widen_val(old: Val, new: Val) -> Val:
